@@ -3,7 +3,7 @@
 # (see ROUND<N>_first_encounter.log), report which other properties' checks catch it (appended to the log)
 N="$1"
 LOG=/verif/seeded/ROUND${N}_first_encounter.log
-echo "# any-property view, checker=$(git -C /verif rev-parse --short HEAD):" >> $LOG
+echo "# any-property view, checker=$(echo ${ADGVERIF_REV:-$(git -C /verif rev-parse --short HEAD)}):" >> $LOG
 grep " silent " $LOG | awk '{print $1}' | sort -u | while read id; do
   P=${id%-*}; x=${id#*-}
   f=/tmp/seed_out$N/$P/$x/patch.diff
